@@ -2404,6 +2404,17 @@ static iwrc _lx_split_addkv(struct iwlctx *lx, int idx, struct sblk *sblk) {
       memcpy(cur->cn, lx->pupper[0], sizeof(*cur->cn));
       cur->cn->kvblk = 0;
       cur->cn->flags &= (SBLK_PERSISTENT_FLAGS | SBLK_DB);
+    } else {
+      // A cursor may stand on the predecessor of the new node at an upper level: its node copy is written back as a
+      // whole by iwkv_cursor_set() / iwkv_cursor_del(), a stale link would cut the new node out of that level
+      for (int i = 1; i <= nb->lvl; ++i) {
+        if ((cur->cn->addr == lx->plower[i]->addr) && (cur->cn != lx->plower[i])) {
+          memcpy(cur->cn, lx->plower[i], sizeof(*cur->cn));
+          cur->cn->kvblk = 0;
+          cur->cn->flags &= (SBLK_PERSISTENT_FLAGS | SBLK_DB);
+          break;
+        }
+      }
     }
   }
   pthread_spin_unlock(&db->cursors_slk);
